@@ -4,20 +4,9 @@
    lemma per leaf loop, the builder rules (addSep, push, parseSep,
    parseSpaces), one lemma per node-parser body against an arbitrary record of
    callees that satisfies the specification, and the induction on fuel. *)
-From verif Require Import lib.Base lib.Utf8 lib.ListX gen.Consts model.C01_Parse model.C01 proofs.C01_proofs.
+From verif Require Import lib.Base lib.Utf8 lib.ListX gen.Consts model.C01_Parse model.C01 proofs.C01_proofs proofs.C01_Utf8_proofs.
 From Coq Require Import Arith Lia ZArith.
 Open Scope nat_scope.
-
-(* ------------------------------------------------------------- utf8 facts *)
-Lemma decode_rune_width s : s <> [] -> 1 <= snd (decode_rune s) <= length s.
-Proof.
-  intros H. unfold decode_rune.
-  repeat (match goal with
-          | |- context [match ?x with _ => _ end] => destruct x eqn:?; cbn [snd length]; try lia
-          | |- context [if ?x then _ else _] => destruct x eqn:?; cbn [snd length]; try lia
-          end).
-  all: try congruence.
-Qed.
 
 Lemma skipn_nonnil {A} (l : list A) p : p < length l -> skipn p l <> [].
 Proof.
@@ -36,18 +25,12 @@ Notation adv := (adv src).
 Notation backup := (backup src).
 Notation error := (error src).
 
-(* positions reachable by decoding forward from 0 *)
-Inductive boundary : nat -> Prop :=
-| bd0 : boundary 0
-| bdS p : boundary p -> p < n -> boundary (p + snd (decode_rune (skipn p src))).
+Notation boundary := (C01_Utf8_proofs.boundary src).
+Notation NextBackup := (C01_Utf8_proofs.NextBackup src).
 
-(* the forward/backward width property of UTF-8 decoding, proved in
-   proofs/C01_Utf8_proofs.v for every byte string *)
-Definition NextBackup : Prop := forall p, boundary p -> p < n ->
-  snd (decode_last_rune (firstn (p + snd (decode_rune (skipn p src))) src))
-  = snd (decode_rune (skipn p src)).
-
-Hypothesis NB : NextBackup.
+(* the forward/backward width property of UTF-8 decoding
+   (C01_Utf8_proofs.next_backup, for every byte string) *)
+Let NB : NextBackup := next_backup src.
 
 Definition PI (ps : pst) : Prop :=
   pos ps <= n /\ boundary (pos ps) /\ (0 < overEOF ps -> pos ps = n).
@@ -141,6 +124,20 @@ Proof.
   intros H. rewrite (backup_adv _ H).
   pose proof (error_SI c _ H) as H1. destruct (adv_spec _ H1) as [A _].
   split; auto. apply adv_error_pos.
+Qed.
+
+(* peeking an ASCII rune: the byte at pos is that rune and next advances by one *)
+Lemma peek_ascii ps a : SI ps -> peek ps = Z.of_N a -> (a < 128)%N ->
+  pos ps < n /\ skipn (pos ps) src = a :: skipn (S (pos ps)) src /\ pos (adv ps) = S (pos ps).
+Proof.
+  intros H Hp Ha. assert (pos ps < n) as Hlt by (apply peek_nonneg; [apply H|lia]).
+  split; auto. unfold C01_Parse.peek, C01_Parse.adv, C01_Parse.next in *. rewrite n_eq in *.
+  destruct (Nat.eqb_spec (pos ps) n) as [E|E]; [lia|].
+  destruct (decode_rune (skipn (pos ps) src)) as [r w] eqn:D. cbn [fst snd pos] in *.
+  apply N2Z.inj in Hp. subst r.
+  destruct (decode_ascii _ _ _ D Ha) as [t [E1 E2]]. subst w.
+  split; [|lia]. rewrite E1. f_equal.
+  replace (S (pos ps)) with (pos ps + 1) by lia. rewrite <- skipn_skipn. now rewrite E1.
 Qed.
 
 (* ------------------------------------------------------------ leaf loops *)
@@ -495,7 +492,571 @@ Qed.
 Lemma push_node b ps t ps' : BF b (pos ps) -> NodeOK ps t ps' -> LoopOK b ps (push t b) ps'.
 Proof.
   intros HB N. pose proof (NodeOK_le _ _ _ N) as L. destruct N as [S' [W [F T]]].
-  apply LoopOK_intro; auto. rewrite <- T. apply push_ok; auto.
+  apply LoopOK_intro; auto. rewrite <- T. apply (push_ok b (pos ps)); auto.
 Qed.
 
+
+Lemma LoopOK_SI b ps b' ps' : LoopOK b ps b' ps' -> SI ps'.
+Proof. intros L; apply L. Qed.
+Lemma LoopOK_BF b ps b' ps' : LoopOK b ps b' ps' -> BF b' (pos ps').
+Proof. intros L; apply L. Qed.
+Lemma LoopOK_BI b ps b' ps' : LoopOK b ps b' ps' -> BI b' (pos ps').
+Proof. intros L; apply L. Qed.
+
+Lemma LoopOK_error c b ps b' ps' : LoopOK b ps b' ps' -> LoopOK b ps b' (error c ps').
+Proof. intros [A [B [C D]]]. apply LoopOK_intro; auto. now apply error_SI. Qed.
+
+Lemma adv_addSep_ok b ps : SI ps -> BI b (pos ps) -> LoopOK b ps (addSep b (adv ps)) (adv ps).
+Proof.
+  intros H HB. destruct (adv_spec _ H) as [A1 [A2 _]].
+  destruct (addSep_loop b ps (adv ps) A1 HB A2) as [B1 B2]. now apply LoopOK_intro.
+Qed.
+
+Lemma adv2_addSep_ok b ps : SI ps -> BI b (pos ps) -> LoopOK b ps (addSep b (adv (adv ps))) (adv (adv ps)).
+Proof.
+  intros H HB. destruct (adv_spec _ H) as [A1 [A2 _]]. destruct (adv_spec _ A1) as [A3 [A4 _]].
+  destruct (addSep_loop b ps (adv (adv ps)) A3 HB ltac:(lia)) as [B1 B2]. apply LoopOK_intro; auto. lia.
+Qed.
+
+Lemma LoopOK_start ps : SI ps -> LoopOK (mkNb (pos ps) []) ps (mkNb (pos ps) []) ps.
+Proof. intros H. apply LoopOK_refl; auto. apply BF_empty. Qed.
+
+(* ------------------------------------- specifications of the node parsers *)
+Definition NodeSpec (k : N) (p : pst -> option (tree * pst)) : Prop :=
+  forall ps t ps', SI ps -> p ps = Some (t, ps') -> NodeOK ps t ps' /\ t_kind t = k.
+Definition LoopSpec (l : nb -> pst -> option (nb * pst)) : Prop :=
+  forall b ps b' ps', SI ps -> BF b (pos ps) -> l b ps = Some (b', ps') -> LoopOK b ps b' ps'.
+Definition LoopSpecX {A} (l : nb -> pst -> option (nb * pst * A)) : Prop :=
+  forall b ps b' ps' x, SI ps -> BF b (pos ps) -> l b ps = Some (b', ps', x) -> LoopOK b ps b' ps'.
+Definition left_ok (left : option tree) (ps : pst) : Prop :=
+  match left with
+  | Some l => WFr l /\ t_to l = pos ps /\ t_kind l = KCompound
+  | None => True
+  end.
+Definition RedirSpec (p : option tree -> pst -> option (tree * pst)) : Prop :=
+  forall left ps t ps', SI ps -> isRedirSign (peek ps) = true -> left_ok left ps ->
+    p left ps = Some (t, ps') ->
+    SI ps' /\ WFr t /\ t_to t = pos ps'
+    /\ t_from t = match left with Some l => t_from l | None => pos ps end.
+
+Record Good (c : callees) : Prop := mkGood {
+  gChunk : NodeSpec KChunk (cChunk c);
+  gChunkLoop : LoopSpec (cChunkLoop c);
+  gPipeline : NodeSpec KPipeline (cPipeline c);
+  gPipelineLoop : LoopSpecX (cPipelineLoop c);
+  gForm : NodeSpec KForm (cForm c);
+  gFormLoop : LoopSpec (cFormLoop c);
+  gRedir : RedirSpec (cRedir c);
+  gCompound : forall ctx, NodeSpec KCompound (cCompound c ctx);
+  gCompoundLoop : forall ctx, LoopSpec (cCompoundLoop c ctx);
+  gIndexing : forall ctx, NodeSpec KIndexing (cIndexing c ctx);
+  gIndexingLoop : LoopSpec (cIndexingLoop c);
+  gArray : NodeSpec KArray (cArray c);
+  gArrayLoop : LoopSpec (cArrayLoop c);
+  gPrimary : forall ctx, NodeSpec KPrimary (cPrimary c ctx);
+  gLbracketLoop : forall hp he, LoopSpecX (fun b ps => cLbracketLoop c b hp he ps);
+  gLambdaLoop : LoopSpec (cLambdaLoop c);
+  gBracedLoop : LoopSpec (cBracedLoop c);
+  gMapPair : NodeSpec KMapPair (cMapPair c)
+}.
+
+Lemma Good0 : Good callees0.
+Proof. constructor; repeat intro; discriminate. Qed.
+
+Section Body.
+Variable c : callees.
+Hypothesis G : Good c.
+
+(* proof steps: [L : LoopOK b0 ps0 b ps] is the accumulated fact about the
+   node under construction; each call extends it *)
+Ltac ext L R :=
+  let L' := fresh "L" in
+  pose proof (LoopOK_trans _ _ _ _ _ _ L R) as L'; clear L; rename L' into L.
+Tactic Notation "dopt" hyp(E) "as" simple_intropattern(p) ident(Q) :=
+  match type of E with
+  | match ?x with Some _ => _ | None => None end = Some _ =>
+    destruct x as [p|] eqn:Q; [|discriminate E]
+  end.
+Tactic Notation "dlet" hyp(E) "as" simple_intropattern(p) ident(Q) :=
+  match type of E with
+  | (let '(_, _) := ?x in _) = Some _ => destruct x as p eqn:Q
+  end.
+(* extend L with a node parsed by a callee: [S] is the NodeSpec fact, [Q] the call *)
+Ltac ext_node L S Q :=
+  ext L (push_node _ _ _ _ (LoopOK_BF _ _ _ _ L) (proj1 (S _ _ _ (LoopOK_SI _ _ _ _ L) Q))).
+Ltac ext_spaces L Q :=
+  ext L (parseSpacesInner_ok _ _ _ _ _ (LoopOK_SI _ _ _ _ L) (LoopOK_BI _ _ _ _ L) Q).
+Ltac ext_loop L S Q :=
+  ext L (S _ _ _ _ (LoopOK_SI _ _ _ _ L) (LoopOK_BF _ _ _ _ L) Q).
+Ltac ext_loopx L S Q :=
+  ext L (S _ _ _ _ _ (LoopOK_SI _ _ _ _ L) (LoopOK_BF _ _ _ _ L) Q).
+Ltac ext_sep L Q :=
+  ext L (proj1 (parseSep_ok _ _ _ _ _ _ (LoopOK_SI _ _ _ _ L) (LoopOK_BF _ _ _ _ L) Q)).
+Ltac ext_expect L Q :=
+  ext L (expectSep_ok _ _ _ _ _ _ (LoopOK_SI _ _ _ _ L) (LoopOK_BF _ _ _ _ L) Q).
+Ltac fin L :=
+  split; [apply finish_node; [reflexivity|apply L|apply L|apply L]|reflexivity].
+
+Lemma chunk_ok : NodeSpec KChunk (chunk_body src c).
+Proof.
+  intros ps t ps' H E. unfold chunk_body in E.
+  pose proof (LoopOK_start _ H) as L.
+  dopt E as [[b1 ps1] any1] Q1. unfold parseSeps in Q1.
+  ext L (parseSepsLoop_ok _ _ _ _ _ _ _ (LoopOK_SI _ _ _ _ L) (LoopOK_BF _ _ _ _ L) Q1).
+  dopt E as [b2 ps2] Q2. ext_loop L (gChunkLoop c G) Q2.
+  inversion E; subst. fin L.
+Qed.
+
+Lemma chunkLoop_ok : LoopSpec (chunkLoop_body is_print src c).
+Proof.
+  intros b ps b' ps' H HB E. unfold chunkLoop_body in E.
+  pose proof (LoopOK_refl _ _ H HB) as L.
+  destruct (startsPipeline _ _); [|inversion E; subst; exact L].
+  dopt E as [t1 ps1] Q1. ext_node L (gPipeline c G) Q1.
+  dopt E as [[b2 ps2] any2] Q2. unfold parseSeps in Q2.
+  ext L (parseSepsLoop_ok _ _ _ _ _ _ _ (LoopOK_SI _ _ _ _ L) (LoopOK_BF _ _ _ _ L) Q2).
+  destruct any2.
+  - ext_loop L (gChunkLoop c G) E. exact L.
+  - inversion E; subst. exact L.
+Qed.
+
+Lemma pipeline_ok : NodeSpec KPipeline (pipeline_body src c).
+Proof.
+  intros ps t ps' H E. unfold pipeline_body in E.
+  pose proof (LoopOK_start _ H) as L.
+  dopt E as [t1 ps1] Q1. ext_node L (gForm c G) Q1.
+  dopt E as [[b2 ps2] ok2] Q2. ext_loopx L (gPipelineLoop c G) Q2.
+  destruct (negb ok2); [inversion E; subst; fin L|].
+  dopt E as [b3 ps3] Q3. ext_spaces L Q3.
+  destruct (Z.eqb _ 38).
+  - ext L (adv_addSep_ok _ _ (LoopOK_SI _ _ _ _ L) (LoopOK_BI _ _ _ _ L)).
+    dopt E as [b5 ps5] Q5. ext_spaces L Q5. inversion E; subst. fin L.
+  - inversion E; subst. fin L.
+Qed.
+
+Lemma pipelineLoop_ok : LoopSpecX (pipelineLoop_body is_print src c).
+Proof.
+  intros b ps b' ps' x H HB E. unfold pipelineLoop_body in E.
+  pose proof (LoopOK_refl _ _ H HB) as L.
+  dlet E as [[ok1 b1] ps1] Q1. destruct (negb ok1); [inversion E; subst; exact L|].
+  ext_sep L Q1. dopt E as [b2 ps2] Q2. ext_spaces L Q2.
+  destruct (negb _).
+  - inversion E; subst. now apply LoopOK_error.
+  - dopt E as [t3 ps3] Q3. ext_node L (gForm c G) Q3. ext_loopx L (gPipelineLoop c G) E. exact L.
+Qed.
+
+Lemma form_ok : NodeSpec KForm (form_body src c).
+Proof.
+  intros ps t ps' H E. unfold form_body in E.
+  pose proof (LoopOK_start _ H) as L.
+  dopt E as [t1 ps1] Q1. ext_node L (gCompound c G CmdExpr) Q1.
+  dopt E as [b2 ps2] Q2. ext_spaces L Q2.
+  dopt E as [b3 ps3] Q3. ext_loop L (gFormLoop c G) Q3.
+  inversion E; subst. fin L.
+Qed.
+
+Lemma formLoop_ok : LoopSpec (formLoop_body is_print src c).
+Proof.
+  intros b ps b' ps' H HB E. unfold formLoop_body in E.
+  pose proof (LoopOK_refl _ _ H HB) as L.
+  destruct (Z.eqb (peek ps) 38).
+  { rewrite (backup_adv _ H) in E.
+    destruct (negb _); [inversion E; subst; exact L|].
+    dopt E as [t1 ps1] Q1. ext_node L (gMapPair c G) Q1. dopt E as [b2 ps2] Q2. ext_spaces L Q2.
+    ext_loop L (gFormLoop c G) E. exact L. }
+  destruct (startsCompound _ _ _).
+  { dopt E as [cn ps1] Q1. destruct (gCompound c G NormalExpr _ _ _ H Q1) as [N K].
+    destruct (isRedirSign (peek ps1)) eqn:RS.
+    - dopt E as [t2 ps2] Q2. pose proof (NodeOK_le _ _ _ N) as Le. destruct N as [N1 [N2 [N3 N4]]].
+      destruct (gRedir c G (Some cn) ps1 t2 ps2 N1 RS (conj N2 (conj N4 K)) Q2) as [R1 [R2 [R3 R4]]].
+      assert (NodeOK ps t2 ps2) as N' by (split; [auto|split; [auto|split; [congruence|auto]]]).
+      ext L (push_node _ _ _ _ (LoopOK_BF _ _ _ _ L) N').
+      dopt E as [b3 ps3] Q3. ext_spaces L Q3. ext_loop L (gFormLoop c G) E. exact L.
+    - ext L (push_node _ _ _ _ (LoopOK_BF _ _ _ _ L) N).
+      dopt E as [b3 ps3] Q3. ext_spaces L Q3. ext_loop L (gFormLoop c G) E. exact L. }
+  destruct (isRedirSign (peek ps)) eqn:RS; [|inversion E; subst; exact L].
+  dopt E as [t1 ps1] Q1. destruct (gRedir c G None ps t1 ps1 H RS I Q1) as [R1 [R2 [R3 R4]]].
+  assert (NodeOK ps t1 ps1) as N' by (split; [auto|split; [auto|split; auto]]).
+  ext L (push_node _ _ _ _ (LoopOK_BF _ _ _ _ L) N').
+  dopt E as [b2 ps2] Q2. ext_spaces L Q2. ext_loop L (gFormLoop c G) E. exact L.
+Qed.
+
+Lemma peek_sign_nonneg ps : isRedirSign (peek ps) = true -> (0 <= peek ps)%Z.
+Proof. unfold isRedirSign. intros H. apply orb_true_iff in H as [H|H]; apply Z.eqb_eq in H; lia. Qed.
+
+(* ---- Redir: the first child decides where the (relaxed) text starts ---- *)
+Definition FC (b : nb) (x : tree) : Prop := exists pre, nb_ch b = pre ++ [x].
+
+Lemma FC_push b x t : FC b x -> FC (push t b) x.
+Proof. intros [pre E]. exists (t :: pre). cbn. now rewrite E. Qed.
+Lemma FC_addSep b x ps : FC b x -> FC (addSep b ps) x.
+Proof. intros F. unfold C01_Parse.addSep. destruct (Nat.ltb _ _); auto. now apply FC_push. Qed.
+Lemma FC_spaces b x ps nl b' ps' : FC b x -> parseSpacesInner src b ps nl = Some (b', ps') -> FC b' x.
+Proof.
+  intros F E. unfold parseSpacesInner in E. destruct (spacesLoop _ _ _ _); [|discriminate].
+  inversion E; subst. now apply FC_addSep.
+Qed.
+Lemma FC_parseSep b x ps sep ok b' ps' : FC b x -> parseSep src b ps sep = (ok, b', ps') -> FC b' x.
+Proof.
+  intros F E. unfold parseSep in E. destruct (Z.eqb _ _); inversion E; subst; auto. now apply FC_addSep.
+Qed.
+
+Lemma finish_redir attr b begin ps x : SI ps -> BF b (pos ps) -> FC b x ->
+  (if N.eqb (t_kind x) KCompound then t_to x else nb_from b) = begin ->
+  WFr (finish src KRedir attr b begin ps).
+Proof.
+  intros H HB [pre E] Hx. apply finish_ok; auto.
+  unfold finish. rewrite E, rev_app_distr. cbn [rev app]. destruct x as [k1 a1 f1 e1 x1 c1].
+  cbn [text_from andb N.eqb KRedir Pos.eqb]. exact Hx.
+Qed.
+
+Lemma redir_ok : RedirSpec (redir_body src c).
+Proof.
+  intros left ps t ps' H RS HL E. unfold redir_body in E.
+  set (b0 := match left with Some l => mkNb (t_from l) [l] | None => mkNb (pos ps) [] end) in *.
+  assert (BF b0 (pos ps)) as HB0.
+  { destruct left as [l|]; [|apply BF_empty]. destruct HL as [W [T K]].
+    pose proof (WF_range _ _ W) as [R1 R2].
+    unfold b0, BF, BI, cover; cbn [nb_ch nb_from rev app chain]. repeat split; auto; lia. }
+  dopt E as ps1 Q1.
+  destruct (redirSignLoop_ok _ _ _ H Q1) as [[S1 Le1] Lt1].
+  assert (pos ps < n) as Hlt by (apply peek_nonneg; [apply H|now apply peek_sign_nonneg]).
+  specialize (Lt1 RS Hlt).
+  match type of E with (let '(_, _) := ?x in _) = _ => destruct x as [mode ps2] eqn:Q2 end.
+  assert (SI ps2 /\ pos ps2 = pos ps1) as [S2 P2].
+  { repeat (match type of Q2 with (if ?x then _ else _) = _ => destruct x end);
+      inversion Q2; subst; split; auto; now apply error_SI. }
+  destruct (addSep_loop b0 ps ps2 S2 (proj1 HB0) ltac:(lia)) as [A1 A2].
+  assert (LoopOK b0 ps (addSep b0 ps2) ps2) as L by (apply LoopOK_intro; auto; lia).
+  (* the first child *)
+  assert (exists x, FC (addSep b0 ps2) x
+            /\ (if N.eqb (t_kind x) KCompound then t_to x else nb_from b0) = pos ps) as [x [F Hx]].
+  { destruct left as [l|].
+    - exists l. split; [apply FC_addSep; exists []; reflexivity|].
+      destruct HL as [W [T K]]. rewrite K. cbn. exact T.
+    - exists (mkSep src (pos ps) (pos ps2)). split; [|reflexivity].
+      unfold C01_Parse.addSep. cbn [b0 nb_ch nb_from].
+      destruct (Nat.ltb_spec (pos ps) (pos ps2)); [|lia]. exists []. reflexivity. }
+  dopt E as [b2 ps3] Q3. pose proof (FC_spaces _ _ _ _ _ _ F Q3) as F3. ext_spaces L Q3.
+  dlet E as [[isfd b3] ps4] Q4. pose proof (FC_parseSep _ _ _ _ _ _ _ F3 Q4) as F4. ext_sep L Q4.
+  dopt E as [t5 ps5] Q5. ext_node L (gCompound c G NormalExpr) Q5.
+  apply (FC_push _ _ t5) in F4.
+  inversion E; subst. clear E.
+  match goal with |- context [finish _ _ _ _ _ ?p] => set (ps6 := p) end.
+  assert (LoopOK b0 ps (push t5 b3) ps6) as L6.
+  { unfold ps6. destruct (t_ch t5); [now apply LoopOK_error|exact L]. }
+  destruct L6 as [S6 [B6 [Fr6 Le6]]].
+  split; [exact S6|]. split; [|split; [reflexivity|]].
+  - eapply finish_redir; eauto. rewrite Fr6. exact Hx.
+  - cbn [finish t_from]. rewrite Fr6. unfold b0. destruct left; reflexivity.
+Qed.
+
+Lemma compound_ok ctx : NodeSpec KCompound (compound_body src c ctx).
+Proof.
+  intros ps t ps' H E. unfold compound_body in E.
+  pose proof (LoopOK_start _ H) as L.
+  match type of E with (let '(_, _) := ?x in _) = _ => destruct x as [b1 ps1] eqn:Q1 end.
+  assert (LoopOK (mkNb (pos ps) []) ps b1 ps1) as L1.
+  { destruct (Z.eqb_spec (peek ps) 126) as [Tl|Tl]; [|inversion Q1; subst; exact L].
+    inversion Q1; subst. clear Q1.
+    destruct (peek_ascii ps 126 H Tl ltac:(reflexivity)) as [Hlt [Sk Pa]].
+    destruct (adv_spec _ H) as [A1 _].
+    rewrite Pa. replace (S (pos ps) - 1) with (pos ps) by lia.
+    assert (Tx : [126%N] = slice src (pos ps) (S (pos ps))).
+    { unfold slice. replace (S (pos ps) - pos ps) with 1 by lia. now rewrite Sk. }
+    assert (WFr (T KPrimary PTilde (pos ps) (S (pos ps)) [126%N] [])) as Wp.
+    { constructor; auto; try lia. congruence. }
+    assert (WFr (T KIndexing NormalExpr (pos ps) (S (pos ps)) [126%N]
+                   [T KPrimary PTilde (pos ps) (S (pos ps)) [126%N] []])) as Wi.
+    { constructor; auto; try lia. intros _. cbn. auto. }
+    apply LoopOK_intro; auto; [|lia].
+    rewrite Pa. apply (push_ok _ (pos ps) _ (BF_empty _) Wi). reflexivity. }
+  dopt E as [b2 ps2] Q2. ext_loop L1 (gCompoundLoop c G ctx) Q2.
+  inversion E; subst. fin L1.
+Qed.
+
+Lemma compoundLoop_ok ctx : LoopSpec (compoundLoop_body is_print src c ctx).
+Proof.
+  intros b ps b' ps' H HB E. unfold compoundLoop_body in E.
+  pose proof (LoopOK_refl _ _ H HB) as L.
+  destruct (startsIndexing _ _ _); [|inversion E; subst; exact L].
+  dopt E as [t1 ps1] Q1. ext_node L (gIndexing c G ctx) Q1.
+  ext_loop L (gCompoundLoop c G ctx) E. exact L.
+Qed.
+
+Lemma indexing_ok ctx : NodeSpec KIndexing (indexing_body src c ctx).
+Proof.
+  intros ps t ps' H E. unfold indexing_body in E.
+  pose proof (LoopOK_start _ H) as L.
+  dopt E as [t1 ps1] Q1. ext_node L (gPrimary c G ctx) Q1.
+  dopt E as [b2 ps2] Q2. ext_loop L (gIndexingLoop c G) Q2.
+  inversion E; subst. fin L.
+Qed.
+
+Lemma indexingLoop_ok : LoopSpec (indexingLoop_body is_print src c).
+Proof.
+  intros b ps b' ps' H HB E. unfold indexingLoop_body in E.
+  pose proof (LoopOK_refl _ _ H HB) as L.
+  dlet E as [[ok1 b1] ps1] Q1. destruct (negb ok1); [inversion E; subst; exact L|].
+  ext_sep L Q1.
+  match type of E with context [cArray c ?p] => set (ps2 := p) in * end.
+  assert (LoopOK b ps b1 ps2) as L2.
+  { unfold ps2. destruct (_ && _); [now apply LoopOK_error|exact L]. }
+  clear L. dopt E as [t3 ps3] Q3. ext_node L2 (gArray c G) Q3.
+  dlet E as [[ok2 b4] ps4] Q4. ext_sep L2 Q4.
+  destruct (negb ok2).
+  - inversion E; subst. now apply LoopOK_error.
+  - ext_loop L2 (gIndexingLoop c G) E. exact L2.
+Qed.
+
+Lemma array_ok : NodeSpec KArray (array_body src c).
+Proof.
+  intros ps t ps' H E. unfold array_body in E.
+  pose proof (LoopOK_start _ H) as L.
+  dopt E as [b1 ps1] Q1. ext_spaces L Q1.
+  dopt E as [b2 ps2] Q2. ext_loop L (gArrayLoop c G) Q2.
+  inversion E; subst. fin L.
+Qed.
+
+Lemma arrayLoop_ok : LoopSpec (arrayLoop_body is_print src c).
+Proof.
+  intros b ps b' ps' H HB E. unfold arrayLoop_body in E.
+  pose proof (LoopOK_refl _ _ H HB) as L.
+  destruct (startsCompound _ _ _); [|inversion E; subst; exact L].
+  dopt E as [t1 ps1] Q1. ext_node L (gCompound c G NormalExpr) Q1.
+  dopt E as [b2 ps2] Q2. ext_spaces L Q2.
+  ext_loop L (gArrayLoop c G) E. exact L.
+Qed.
+
+Lemma lbracketLoop_ok hp he : LoopSpecX (fun b ps => lbracketLoop_body is_print src c b hp he ps).
+Proof.
+  intros b ps b' ps' x H HB E. unfold lbracketLoop_body in E.
+  pose proof (LoopOK_refl _ _ H HB) as L.
+  destruct (Z.eqb (peek ps) 38).
+  { destruct (negb _).
+    - ext L (adv_addSep_ok _ _ (LoopOK_SI _ _ _ _ L) (LoopOK_BI _ _ _ _ L)).
+      dopt E as [b2 ps2] Q2. ext_spaces L Q2. inversion E; subst. exact L.
+    - rewrite (backup_adv _ H) in E.
+      dopt E as [t3 ps3] Q3. ext_node L (gMapPair c G) Q3.
+      dopt E as [b4 ps4] Q4. ext_spaces L Q4.
+      ext_loopx L (gLbracketLoop c G true he) E. exact L. }
+  destruct (startsCompound _ _ _); [|inversion E; subst; exact L].
+  dopt E as [t1 ps1] Q1. ext_node L (gCompound c G NormalExpr) Q1.
+  dopt E as [b2 ps2] Q2. ext_spaces L Q2.
+  ext_loopx L (gLbracketLoop c G hp true) E. exact L.
+Qed.
+
+Lemma lambdaLoop_ok : LoopSpec (lambdaLoop_body is_print src c).
+Proof.
+  intros b ps b' ps' H HB E. unfold lambdaLoop_body in E.
+  pose proof (LoopOK_refl _ _ H HB) as L.
+  destruct (Z.eqb (peek ps) 38).
+  { dopt E as [t1 ps1] Q1. ext_node L (gMapPair c G) Q1.
+    dopt E as [b2 ps2] Q2. ext_spaces L Q2. ext_loop L (gLambdaLoop c G) E. exact L. }
+  destruct (startsCompound _ _ _); [|inversion E; subst; exact L].
+  dopt E as [t1 ps1] Q1. ext_node L (gCompound c G NormalExpr) Q1.
+  dopt E as [b2 ps2] Q2. ext_spaces L Q2. ext_loop L (gLambdaLoop c G) E. exact L.
+Qed.
+
+Lemma bracedLoop_ok : LoopSpec (bracedLoop_body src c).
+Proof.
+  intros b ps b' ps' H HB E. unfold bracedLoop_body in E.
+  pose proof (LoopOK_refl _ _ H HB) as L.
+  destruct (isBracedSep _); [|inversion E; subst; exact L].
+  dopt E as [b1 ps1] Q1. ext_spaces L Q1.
+  dlet E as [[ok2 b2] ps2] Q2. ext_sep L Q2.
+  dopt E as [b3 ps3] Q3. ext_spaces L Q3.
+  dopt E as [t4 ps4] Q4. ext_node L (gCompound c G BracedElemExpr) Q4.
+  ext_loop L (gBracedLoop c G) E. exact L.
+Qed.
+
+Lemma mapPair_ok : NodeSpec KMapPair (mapPair_body src c).
+Proof.
+  intros ps t ps' H E. unfold mapPair_body in E.
+  pose proof (LoopOK_start _ H) as L.
+  dlet E as [[ok1 b1] ps1] Q1. ext_sep L Q1.
+  dopt E as [k2 ps2] Q2. ext_node L (gCompound c G LHSExpr) Q2.
+  match type of E with context [parseSep src _ ?p 61%Z] => set (ps3 := p) in * end.
+  assert (LoopOK (mkNb (pos ps) []) ps (push k2 b1) ps3) as L3.
+  { unfold ps3. destruct (t_ch k2); [now apply LoopOK_error|exact L]. }
+  clear L. dlet E as [[eq4 b4] ps4] Q4. ext_sep L3 Q4.
+  destruct eq4.
+  - dopt E as [b5 ps5] Q5. ext_spaces L3 Q5.
+    dopt E as [v6 ps6] Q6. ext_node L3 (gCompound c G NormalExpr) Q6.
+    inversion E; subst. fin L3.
+  - inversion E; subst. fin L3.
+Qed.
+
+Lemma finish_leaf ty ps ps' : SI ps' -> pos ps <= pos ps' ->
+  NodeOK ps (finish src KPrimary ty (mkNb (pos ps) []) (pos ps) ps') ps'
+  /\ t_kind (finish src KPrimary ty (mkNb (pos ps) []) (pos ps) ps') = KPrimary.
+Proof.
+  intros H Le. split; [|reflexivity]. split; [exact H|]. split; [|split; reflexivity].
+  unfold finish. cbn [nb_from nb_ch rev]. constructor; auto; try apply H. congruence.
+Qed.
+
+Lemma primary_ok ctx : NodeSpec KPrimary (primary_body is_print src c ctx).
+Proof.
+  intros ps t ps' H E. unfold primary_body in E. cbv zeta in E.
+  pose proof (LoopOK_start _ H) as L.
+  destruct (negb (startsPrimary _ _ _)).
+  { inversion E; subst. apply finish_leaf; [now apply error_SI|cbn; lia]. }
+  destruct (allowedInBareword _ _ _).
+  { dopt E as ps1 Q1. inversion E; subst. destruct (barewordLoop_ok _ _ _ _ H Q1) as [[A B] _].
+    now apply finish_leaf. }
+  destruct (adv_spec _ H) as [H1 [Le1 _]].
+  destruct (Z.eqb (peek ps) 39).
+  { dopt E as ps1 Q1. inversion E; subst. destruct (singleQuotedInner_ok _ _ _ H1 Q1) as [A B].
+    apply finish_leaf; auto; lia. }
+  destruct (Z.eqb (peek ps) 34).
+  { dopt E as ps1 Q1. inversion E; subst. destruct (doubleQuotedInner_ok _ _ _ H1 Q1) as [A B].
+    apply finish_leaf; auto; lia. }
+  destruct (Z.eqb_spec (peek ps) 36) as [P36|_].
+  { dopt E as ps1 Q1. inversion E; subst.
+    destruct (variable_ok _ _ H ltac:(lia) Q1) as [[A B] _]. now apply finish_leaf. }
+  destruct (Z.eqb (peek ps) 42).
+  { dopt E as ps1 Q1. inversion E; subst. destruct (starLoop_ok _ _ _ H Q1) as [[A B] _].
+    now apply finish_leaf. }
+  destruct (Z.eqb (peek ps) 63).
+  { destruct (hasPrefix2 _ _ _ _).
+    - ext L (adv2_addSep_ok _ _ (LoopOK_SI _ _ _ _ L) (LoopOK_BI _ _ _ _ L)).
+      dopt E as [t2 ps2] Q2. ext_node L (gChunk c G) Q2.
+      dlet E as [b3 ps3] Q3. ext_expect L Q3. inversion E; subst. fin L.
+    - inversion E; subst. now apply finish_leaf. }
+  destruct (Z.eqb (peek ps) 40).
+  { dlet E as [[ok1 b1] ps1] Q1. ext_sep L Q1.
+    dopt E as [t2 ps2] Q2. ext_node L (gChunk c G) Q2.
+    dlet E as [b3 ps3] Q3. ext_expect L Q3. inversion E; subst. fin L. }
+  destruct (Z.eqb (peek ps) 91).
+  { dlet E as [[ok1 b1] ps1] Q1. ext_sep L Q1.
+    dopt E as [b2 ps2] Q2. ext_spaces L Q2.
+    dopt E as [[b3 ps3] fl] Q3. ext_loopx L (gLbracketLoop c G false false) Q3.
+    destruct fl as [[lone hasP] hasE].
+    dlet E as [b4 ps4] Q4. ext_expect L Q4.
+    destruct (lone || hasP).
+    - inversion E; subst. destruct hasE; [apply (LoopOK_error errBothElementsAndPairs) in L|]; fin L.
+    - inversion E; subst. fin L. }
+  destruct (Z.eqb (peek ps) 123); [|inversion E; subst; now apply finish_leaf].
+  dlet E as [[ok1 b1] ps1] Q1. ext_sep L Q1.
+  match type of E with (if ?x then _ else _) = _ => destruct x end.
+  - (* lambda *)
+    dopt E as [b2 ps2] Q2. ext_spaces L Q2.
+    dlet E as [[bar b3] ps3] Q3. ext_sep L Q3.
+    dopt E as [b6 ps6] Q6.
+    assert (LoopOK (mkNb (pos ps) []) ps b6 ps6) as L6.
+    { destruct bar; [|inversion Q6; subst; exact L].
+      dopt Q6 as [b4 ps4] Q4. ext_spaces L Q4.
+      dopt Q6 as [b5 ps5] Q5. ext_loop L (gLambdaLoop c G) Q5.
+      inversion Q6 as [Q7]. ext_expect L Q7. exact L. }
+    clear L. dopt E as [t7 ps7] Q7. ext_node L6 (gChunk c G) Q7.
+    dlet E as [b8 ps8] Q8. ext_expect L6 Q8. inversion E; subst. fin L6.
+  - (* braced *)
+    dopt E as [t2 ps2] Q2. ext_node L (gCompound c G BracedElemExpr) Q2.
+    dopt E as [b3 ps3] Q3. ext_loop L (gBracedLoop c G) Q3.
+    dlet E as [b4 ps4] Q4. ext_expect L Q4. inversion E; subst. fin L.
+Qed.
+
+End Body.
+
+(* ------------------------------------------------------ induction on fuel *)
+Lemma step_good c : Good c -> Good (step is_print src c).
+Proof.
+  intros G. constructor; cbn [step cChunk cChunkLoop cPipeline cPipelineLoop cForm cFormLoop cRedir
+    cCompound cCompoundLoop cIndexing cIndexingLoop cArray cArrayLoop cPrimary cLbracketLoop
+    cLambdaLoop cBracedLoop cMapPair]; intros.
+  - now apply chunk_ok.
+  - now apply chunkLoop_ok.
+  - now apply pipeline_ok.
+  - now apply pipelineLoop_ok.
+  - now apply form_ok.
+  - now apply formLoop_ok.
+  - now apply redir_ok.
+  - now apply compound_ok.
+  - now apply compoundLoop_ok.
+  - now apply indexing_ok.
+  - now apply indexingLoop_ok.
+  - now apply array_ok.
+  - now apply arrayLoop_ok.
+  - now apply primary_ok.
+  - now apply lbracketLoop_ok.
+  - now apply lambdaLoop_ok.
+  - now apply bracedLoop_ok.
+  - now apply mapPair_ok.
+Qed.
+
+Lemma parsers_good fuel : Good (parsers is_print src fuel).
+Proof. induction fuel as [|f IH]; [apply Good0|cbn [parsers]; now apply step_good]. Qed.
+
 End P.
+
+(* -------------------------------------------------------------- parse.Parse *)
+Section Top.
+Variable is_print : N -> bool.
+Variable src : bytes.
+
+Lemma SI_ps0 : SI src ps0.
+Proof.
+  split; [split; [cbn; lia|split; [constructor|cbn; lia]]|constructor].
+Qed.
+
+Lemma report_in_range ps : EI src ps -> errs_in_range src (report src ps).
+Proof.
+  unfold EI, report, errs_in_range. intros H. apply Forall_forall. intros e Hin.
+  apply in_map_iff in Hin as [[[f t] cd] [<- Hin]]. apply in_rev in Hin.
+  rewrite Forall_forall in H. specialize (H _ Hin). cbn in *. exact H.
+Qed.
+
+(* every parse result of the model is a lossless tree in the relaxed sense
+   (exact except for the text of a Redir node with a left operand), with all
+   error ranges inside the source *)
+Lemma parse_spec_relaxed fuel t es :
+  parse_fuel is_print src fuel = Some (t, es) -> Spec_C01_gen true src t es.
+Proof.
+  unfold parse_fuel. intros E.
+  destruct (cChunk _ _) as [[t0 ps]|] eqn:Q; [|discriminate]. inversion E; subst. clear E.
+  destruct (gChunk _ _ (parsers_good is_print src fuel) _ _ _ SI_ps0 Q) as [[HS [W [F Tt]]] _].
+  assert (SI src (done src ps)) as SD.
+  { unfold done. destruct (Nat.eqb _ _); auto. now apply error_SI. }
+  split; [exact W|]. split; [exact F|]. split; [|split].
+  - rewrite (leaves_slice _ _ _ W), F. unfold slice. cbn [skipn]. now rewrite Nat.sub_0_r.
+  - unfold done. rewrite Tt. change (C01_Parse.n src) with (length src).
+    destruct (Nat.eqb_spec (pos ps) (length src)) as [Q1|Q1]; [now left|right].
+    exists (mk_err src (pos ps, (if Nat.ltb (pos ps) (length src) then S (pos ps) else pos ps), errUnexpectedRune)).
+    split; [|reflexivity]. unfold report. apply in_map. apply in_rev. rewrite rev_involutive.
+    cbn. now left.
+  - apply report_in_range. apply SD.
+Qed.
+
+(* ... and in the strict sense when no Redir node has a left operand *)
+Lemma parse_spec_strict fuel t es :
+  parse_fuel is_print src fuel = Some (t, es) -> no_redir_left t = true -> Spec_C01 src t es.
+Proof.
+  intros E Hn. destruct (parse_spec_relaxed _ _ _ E) as [W R].
+  split; [now apply WF_relax_strict|exact R].
+Qed.
+
+End Top.
+
+(* ---- statements used by props/C01.v ---- *)
+
+Lemma next_backup_state src ps :
+  pos ps <= length src -> boundary src (pos ps) -> (0 < overEOF ps -> pos ps = length src) ->
+  backup src (snd (next src ps)) = ps.
+Proof.
+  intros A B C.
+  pose (ps1 := mkPst (pos ps) (overEOF ps) []).
+  assert (SI src ps1) as S1 by (split; [split; [exact A|split; [exact B|exact C]]|constructor]).
+  pose proof (backup_adv (fun _ => true) src ps1 S1) as E.
+  assert (forall e, backup src (snd (next src (mkPst (pos ps) (overEOF ps) e)))
+                    = mkPst (pos (backup src (snd (next src ps1)))) (overEOF (backup src (snd (next src ps1)))) e) as G.
+  { intros e. unfold C01_Parse.next, C01_Parse.backup, ps1. cbn [pos overEOF errs].
+    destruct (Nat.eqb _ _); cbn [snd pos overEOF errs]; [reflexivity|].
+    destruct (decode_rune _); cbn [snd pos overEOF errs].
+    destruct (overEOF ps); [|reflexivity]. destruct (decode_last_rune _); reflexivity. }
+  destruct ps as [p o e]. cbn [pos overEOF] in *. rewrite G.
+  unfold C01_Parse.adv in E. rewrite E. reflexivity.
+Qed.
+
+Lemma parse_errors_in_range is_print src fuel t es :
+  parse_fuel is_print src fuel = Some (t, es) -> errs_in_range src es.
+Proof. intros E. apply (parse_spec_relaxed is_print src fuel t es E). Qed.
